@@ -4,7 +4,7 @@
    Proofs/CatalogueInv.v.  `repaired c` = the code after fix-F-C15a.diff and fix-F-C15b.diff (fix_c free:
    both variants of IndexedStringField.__init__ are covered). *)
 From Coq Require Import ZArith List Bool.
-From EV Require Import Res Catalogue CatalogueSpec CatalogueIdentSpec CatalogueBase CatalogueInv CatalogueRename CatalogueRenameOk CatalogueStep CatalogueObs CatalogueData CatalogueHandles CatalogueVerdicts CatalogueTrace CatalogueWitness CatalogueIdent CatalogueIdentTrace.
+From EV Require Import Res Catalogue CatalogueSpec CatalogueIdentSpec CatalogueBase CatalogueInv CatalogueRename CatalogueRenameOk CatalogueStep CatalogueObs CatalogueData CatalogueHandles CatalogueVerdicts CatalogueTrace CatalogueWitness CatalogueIdent CatalogueIdentTrace CatalogueLoader CatalogueLoaderOk.
 Import ListNotations.
 Open Scope Z_scope.
 
@@ -35,6 +35,28 @@ Theorem c15_reopen_same : forall c ops i d n,
   live_lookup (run_ops c ops init_state) i d n = file_lookup (run_ops c ops init_state) i d n.
 Proof. exact reopen_same. Qed.
 Print Assumptions c15_reopen_same.
+
+(* ---- (2b) FULL: the reopen WITH the loader's filter (Model/CatalogueLoader.v: HDF5Dataset.__init__ skips the one
+   reserved top-level group name 'trash').  For every frame name other than that name - substrings, prefixes, suffixes,
+   superstrings and case variants of it included: names are arbitrary byte lists - the reopened dataset finds under every
+   field name the type and data the live objects hold; the reserved name itself, and nothing else, is hidden (which is
+   why the harness never generates it as a frame name); and when the file holds no group of that name the loaded view
+   is exactly the reopen view the final verdict is stated on. *)
+Theorem c15_loader_reopen_same : forall c ops i d n,
+  fix_a c = true -> fix_b c = true -> d <> reserved_group ->
+  loaded_lookup (run_ops c ops init_state) i d n = live_lookup (run_ops c ops init_state) i d n.
+Proof. exact loader_reopen_same. Qed.
+Print Assumptions c15_loader_reopen_same.
+
+Theorem c15_loader_hides_reserved : forall s i n, loaded_lookup s i reserved_group n = None.
+Proof. exact loader_hides_reserved. Qed.
+Print Assumptions c15_loader_hides_reserved.
+
+Theorem c15_loaded_view_is_reopen_view : forall s i,
+  (forall kg, In kg (h5_root s i) -> fst kg <> reserved_group) -> loaded_view s i = reopen_view s i.
+Proof. exact loaded_view_is_reopen_view. Qed.
+Print Assumptions c15_loaded_view_is_reopen_view.
+(* non-vacuity: Proofs/CatalogueLoaderOk.v loader_keeps_relatives (24 relatives of the reserved name are kept, it is not) *)
 
 (* ---- (3) FULL: rename is all or nothing.  If it raises (unknown key, clash) the state is unchanged; if it
    returns, the frame lists `subst m` of its old names in the old order on the Python side, the h5 group holds
